@@ -50,7 +50,9 @@ pub fn check_cancel(sc: &Scenario, tr: &Trace) -> Result<&'static str, Fail> {
     let peer = if who == p.from { p.to } else { p.from };
     let src = p.file.as_ref().map(|f| f.bytes()).unwrap_or_default();
     // was the cancel processed while the transaction was active at `who`?
-    let started = tr.inds_of(who, id).iter().any(|r| r.t <= t_cancel);
+    // strictly before: a request issued in the very millisecond in which the transaction is being created at this
+    // entity may reach the daemon first and find nothing to cancel
+    let started = tr.inds_of(who, id).iter().any(|r| r.t < t_cancel);
     let ended_before = tr.terminated_at(who, id).map(|t| t < t_cancel).unwrap_or(false);
     let active = started && !ended_before;
     // (3) destination rule, at every Finished indication at the receiver and at the end
